@@ -151,8 +151,10 @@ theorem apiSpawn_s (s : Sys) (t n) : SdLe s (apiSpawn s t n) := by
   · speel (setPc_s _ _ _); speel (emit_s _ _); exact spawnProc_s _ _
   all_goals (speel (setPc_s _ _ _); exact spawnProc_s _ _)
 
+theorem addDone_s (s : Sys) (i : IId) : SdLe s (addDone s i) := by
+  unfold addDone; done_s
 theorem doSkip_s (s : Sys) (t i) : SdLe s (doSkip s t i) := by
-  unfold doSkip; exact (onProcessEnd_s _ _ _).then (setPc_s _ _ _)
+  unfold doSkip; exact (addDone_s _ _).then ((onProcessEnd_s _ _ _).then (setPc_s _ _ _))
 
 theorem afterDeps_s (s : Sys) (t) : SdLe s (afterDeps s t) := setPc_s _ _ _
 
